@@ -11,6 +11,10 @@ Floats are the 16 hex digits of their IEEE bits (`nan` for NaN), ints decimal.
   dec <dim> <pyr>*(dim=1 ? 1 : 2(dim-1)) <mu>*5  -> force*dim         (mju_decodePyramid)
   enc <dim> <force>*dim <mu>*5   (dim>=2)        -> pyramid*2(dim-1)  (mju_encodePyramid)
   pc <elliptic 0|1> <dim> <force>*dim <mu>*5     -> force*dim         (static projectCone)
+  imp <nefnf> <impratio> <nefc> <ncon> {diagA imp type id}*nefc {dim f0 f1 f2 f3 f4}*ncon
+        -> R <efc_R>*nefc | D <efc_D>*nefc | m {<contact.mu>|-}*ncon       (mj_makeImpedance)
+        -> oob    when the C code would index outside its arrays / not terminate
+        (rows before nefnf must not be frictional-contact rows, types must be mjtConstraint values 0..7: bad-op)
 -/
 open MjProof MjProof.Driver MjProof.Constraint
 
@@ -36,6 +40,25 @@ def parseCon : List String → Option (Contact Float)
     | _, _, _ => none
   | _ => none
 
+def parseIRow : List String → Option (IRow Float)
+  | [a, i, t, k] =>
+    match fl? a, fl? i, t.toNat?, k.toNat? with
+    | some a, some i, some t, some k => some ⟨a, i, t, k⟩
+    | _, _, _, _ => none
+  | _ => none
+
+/-- `dim f0..f4` (contact.mu is an output of mj_makeImpedance: the model's `Contact.mu` field is unused) -/
+def parseICon : List String → Option (Contact Float)
+  | dim :: fr =>
+    match dim.toNat?, fls? fr with
+    | some dim, some fr => if fr.length = 5 then some ⟨dim, 0.0, fr⟩ else none
+    | _, _ => none
+  | _ => none
+
+def showImp (o : ImpOut Float) : String :=
+  "R " ++ showFs o.R ++ " | D " ++ showFs o.D ++ " | m" ++
+    String.join (o.mu.map (fun m => match m with | some m => " " ++ floatBits m | none => " -"))
+
 def showOut (o : Out Float) : String :=
   "c " ++ floatBits o.cost ++ " | f " ++ showFs o.force ++ " | s " ++ joinNats o.state ++ " | h " ++
     " ; ".intercalate (o.hess.map (fun h => match h with | some h => showFs h | none => "-"))
@@ -57,6 +80,21 @@ def step (line : String) : String :=
         | none => "oob"
       | _, _ => "bad-op"
     | _, _, _, _, _ => "bad-op"
+  | "imp" :: nefnf :: ir :: nefc :: ncon :: rest =>
+    match nefnf.toNat?, fl? ir, nefc.toNat?, ncon.toNat? with
+    | some nefnf, some ir, some nefc, some ncon =>
+      if rest.length ≠ 4 * nefc + 6 * ncon ∨ nefc < nefnf then "bad-op" else
+      match (chunks 4 nefc (rest.take (4 * nefc))).mapM parseIRow,
+            (chunks 6 ncon (rest.drop (4 * nefc))).mapM parseICon with
+      | some rows, some cons =>
+        if rows.length ≠ nefc ∨ cons.length ≠ ncon then "bad-op" else
+        if (rows.take nefnf).any (fun r => r.type == cnstrPyramidal || r.type == cnstrElliptic) then "bad-op" else
+        if rows.any (fun r => decide (7 < r.type)) then "bad-op" else
+        match makeImpedance nefnf ir rows cons with
+        | some o => showImp o
+        | none => "oob"
+      | _, _ => "bad-op"
+    | _, _, _, _ => "bad-op"
   | "jtv" :: nr :: nc :: rest =>
     match nr.toNat?, nc.toNat?, fls? rest with
     | some nr, some nc, some xs =>
